@@ -138,10 +138,15 @@ def render_model(prog):
     base = "object"
     if kind == "mixin":
         base = "MachineMixin"
+    if kind == "libmodel":
+        # a domain model that extends the library's own ``Model`` class
+        base = "_LibModel"
     lines.append(f"class {name}({base}):")
     body = []
     if kind == "attr":
         body.append(f"    def __init__(self):\n        self.{field} = None\n")
+    elif kind == "libmodel":
+        body.append(f"    def __init__(self):\n        super().__init__()\n        self.{field} = None\n")
     elif kind == "noattr":
         body.append("    def __init__(self):\n        self.other = 1\n")
     elif kind == "classdefault":
@@ -397,6 +402,7 @@ def render_program(prog, base_name=None):
         "import enum",
         "from statemachine import StateMachine, State, Event",
         "from statemachine.mixins import MachineMixin",
+        "from statemachine.model import Model as _LibModel",
         "from sim.simrt import SIM",
         "import asyncio",
         "import functools",
